@@ -28,7 +28,7 @@ def corpus():
 def run(ctx):
     rng = ctx.rng
     thorough = ctx.tier == 'thorough'
-    nreq = 20000 if thorough else 1500
+    nreq = 20000 if thorough else 1500 * ctx.scale
     lines = []
     meta = []
     # corpus: raw byte strings with expected canonical parse (minimised earlier failures / repo test inputs)
@@ -66,7 +66,7 @@ def run(ctx):
     # remove = every one of that name
     HN = ['Content-Length', 'content-length', 'CONTENT-LENGTH', 'Cookie', 'cookie', 'X-Forwarded-For', 'x-forwarded-for', 'X-Custom',
           'x-custom', 'X-CUSTOM', 'Host', 'Connection', 'Accept', 'accept', 'Set-Cookie', 'set-cookie', 'X-Other']
-    for i in range(0 if ctx.replay else (4000 if thorough else 400)):
+    for i in range(0 if ctx.replay else (4000 if thorough else 400 * ctx.scale)):
         hs = [(rng.choice(HN), 'v%d' % k) for k in range(rng.randint(0, 8))]
         name = rng.choice(HN)
         lines.append('hdr_get %s %s' % (','.join('%s:%s' % (hx(k), hx(v)) for k, v in hs) or '-', hx(name)))
